@@ -47,7 +47,7 @@ MmiExpected(c) ==
 MmiShape(c) == IF c.form = "plain" THEN <<c.m, c.n>> ELSE <<c.nb, c.m, c.n>>
 MmiRows(c) == IF c.form = "a_batch" THEN c.nb * c.m ELSE c.m
 MmiTrigger(c) ==
-  IF (c.b_const /\ c.b_ty = "i8" /\ MmiRows(c) > 1) \/ (c.form = "b_batch" /\ c.nb > 1 /\ c.m > 1)
+  IF (c.prepack /\ c.b_ty = "i8" /\ MmiRows(c) > 1) \/ (c.form = "b_batch" /\ c.nb > 1 /\ c.m > 1)
   THEN "prepacked_operand"
   ELSE IF (c.za_kind = "vector" /\ ~AllEq(c.za) /\ MmiRows(c) > c.mr)
           \/ (c.zb_kind = "vector" /\ ~AllEq(c.zb) /\ c.n > c.nr)
@@ -121,7 +121,7 @@ FirstDiff(a, b, i) == IF i > Len(a) THEN 0 ELSE IF a[i] # b[i] THEN i ELSE First
 Small(c) ==
   CASE c.op = "MatMulInteger" ->
          [id |-> c.id, op |-> c.op, form |-> c.form, nb |-> c.nb, m |-> c.m, n |-> c.n, k |-> c.k,
-          a_ty |-> c.a_ty, b_ty |-> c.b_ty, b_const |-> c.b_const, za_kind |-> c.za_kind, zb_kind |-> c.zb_kind,
+          a_ty |-> c.a_ty, b_ty |-> c.b_ty, b_const |-> c.b_const, prepack |-> c.prepack, za_kind |-> c.za_kind, zb_kind |-> c.zb_kind,
           za |-> c.za, zb |-> c.zb, to_float |-> c.to_float, scale_log2 |-> c.scale_log2]
     [] c.op = "ConvInteger" ->
          [id |-> c.id, op |-> c.op, kind |-> c.kind, batch |-> c.batch, c |-> c.c, h |-> c.h, w |-> c.w, o |-> c.o,
